@@ -25,6 +25,7 @@ import (
 	metav1 "k8s.io/apimachinery/pkg/apis/meta/v1"
 	apimachineryvalidation "k8s.io/apimachinery/pkg/util/validation"
 	"k8s.io/apimachinery/pkg/util/validation/field"
+	"k8s.io/client-go/tools/cache"
 	apivalidation "k8s.io/kubernetes/pkg/apis/core/validation"
 	"k8s.io/utils/clock"
 
@@ -75,6 +76,42 @@ func (v *Validator) ValidateJobConfig(rjc *v1alpha1.JobConfig) field.ErrorList {
 	allErrs := field.ErrorList{}
 	allErrs = append(allErrs, validation.ValidateMaxLength(rjc.Name, maxJobConfigNameLen, field.NewPath("metadata").Child("name"))...)
 	allErrs = append(allErrs, v.ValidateJobConfigSpec(&rjc.Spec, field.NewPath("spec"))...)
+	if len(allErrs) == 0 {
+		allErrs = append(allErrs, v.validateCronScheduleForJobConfig(rjc, field.NewPath("spec", "schedule", "cron"))...)
+	}
+	return allErrs
+}
+
+// validateCronScheduleForJobConfig validates that the cron schedule can be
+// parsed exactly the way the CronController will parse it, that is, using the
+// JobConfig's namespaced name as the hash ID. Hashed fields (e.g. "H/3") may be
+// evaluated to a different (and possibly invalid) value depending on the hash ID,
+// and a JobConfig whose schedule cannot be parsed would prevent the
+// CronController from initializing its schedule for all JobConfigs.
+func (v *Validator) validateCronScheduleForJobConfig(rjc *v1alpha1.JobConfig, fldPath *field.Path) field.ErrorList {
+	allErrs := field.ErrorList{}
+	if rjc.Name == "" || rjc.Spec.Schedule == nil || rjc.Spec.Schedule.Cron == nil {
+		return allErrs
+	}
+
+	cfg, err := v.ctrlContext.Configs().Cron()
+	if err != nil {
+		allErrs = append(allErrs, field.InternalError(fldPath, errors.Wrapf(err, "cannot load cron config")))
+		return allErrs
+	}
+
+	hashID, err := cache.MetaNamespaceKeyFunc(rjc)
+	if err != nil {
+		allErrs = append(allErrs, field.InternalError(fldPath, errors.Wrapf(err, "cannot get namespaced name")))
+		return allErrs
+	}
+
+	parser := cron.NewParserFromConfig(cfg)
+	if _, err := cron.NewExpressionFromCronSchedule(rjc.Spec.Schedule.Cron, parser, hashID); err != nil {
+		allErrs = append(allErrs, field.Invalid(fldPath, rjc.Spec.Schedule.Cron.GetExpressions(),
+			fmt.Sprintf("cannot parse cron schedule for %v: %v", hashID, err)))
+	}
+
 	return allErrs
 }
 
